@@ -156,6 +156,10 @@ func (dec *Decoder) readSafeString(utf16Length int) (s string) {
 // ReadUnsafeString reads unsafe string.
 func (dec *Decoder) ReadUnsafeString() (s string) {
 	s = dec.readUnsafeString(dec.ReadInt())
+	if dec.head == dec.tail && dec.reader != nil {
+		// skipping the closing quote refills the buffer s points into
+		s = string(convert.ToUnsafeBytes(s))
+	}
 	dec.Skip()
 	return
 }
